@@ -30,8 +30,8 @@ def main(ctx, args):
         "Model/StateMachine.lean ports the state primitives of runtime/vm.rs and runtime/wasm.rs; tied by this differential run",
         "bytecodegen, wasmgen, wasmtime are exercised, not modelled",
         "corpus stream: every .mmm under lib/, examples/, mimium-test/tests/mmm that both backends accept with a dsp, plus token-level mutants (constant tweaks, operator swaps; constants next to `%` and zero are not injected: findings G4, G5)",
-        "generated programs: profile `scalar` (named stateful/stateless functions, let, if, self, mem, delay, now, samplerate, one dsp input, globals); "
-        "tuples and lambdas are excluded from the C01 stream because the pinned WASM backend has listed defects there (F18, F20, G1, G2; VM: F17, G3)",
+        "generated programs: profiles `scalar*`, `nolam` (tuples, nested patterns, records, tuple-valued self) and `records`; "
+        "lambdas are excluded from the C01 stream because the pinned back ends have listed defects there (WASM: G2, F11; VM: G3)",
     ]
     known = load_known("C01")
     if not extract(ctx):
@@ -42,8 +42,10 @@ def main(ctx, args):
     if not build_harness(ctx, bins=["runprog"]):
         ctx.finish()
     times = 24 if ctx.tier == "quick" else 96
-    plan = [("scalar", 1300, False), ("scalar_tself", 500, False), ("scalar_deep", 300, False), ("scalar", 200, True)] if ctx.tier == "quick" else \
-           [("scalar", 12000, False), ("scalar_tself", 5000, False), ("scalar_deep", 3000, False), ("scalar", 2000, True)]
+    plan = [("scalar", 800, False), ("scalar_tself", 400, False), ("scalar_deep", 300, False), ("nolam", 700, False), ("records", 300, False),
+            ("scalar", 200, True)] if ctx.tier == "quick" else \
+           [("scalar", 8000, False), ("scalar_tself", 4000, False), ("scalar_deep", 3000, False), ("nolam", 8000, False), ("records", 3000, False),
+            ("scalar", 2000, True)]
     allcases = []
     gstats = collections.Counter()
     if args.replay:
